@@ -55,6 +55,26 @@ def gen_doubles(rng, n):
     return [abs(v) for v in out if v == v and v not in (float("inf"), float("-inf"))]
 
 
+def near_midpoints(rng, n):
+    """decimal literals of ~28 significant digits a hair (2^-70 relative) above or below the midpoint of two adjacent doubles:
+    a conversion that rounds twice (through a wider intermediate format) picks the wrong neighbour for one of each pair"""
+    import math
+    from decimal import Decimal, getcontext
+    from fractions import Fraction
+    getcontext().prec = 60
+    out = []
+    while len(out) < n:
+        d = dbl(((1023 + rng.randrange(-10, 50)) << 52) | rng.getrandbits(52))
+        mid = (Fraction(d) + Fraction(math.nextafter(d, math.inf))) / 2
+        for sgn in (1, -1):
+            v = mid * (1 + sgn * Fraction(1, 2 ** 70))
+            t = format(Decimal(v.numerator) / Decimal(v.denominator), "f")
+            ip, _, fp = t.partition(".")
+            keep = max(1, 28 - len(ip.lstrip("0")))
+            out.append(ip + "." + (fp + "0" * keep)[:keep])
+    return out
+
+
 def gen_literals(rng, n):
     out = ["0.3", "0.7", "1.7", "1.15", "3.14159", "1e23", "2.2250738585072014e-308", "100000000000000000000.0", "18446744073709551616.0",
            "250000000000000000000.0", "1.", ".5", "5.e3", "1e", "1e+", "0.1e1", "12345678901234567890123.0", "0.000000000000000000001", "1E5", "1e-400", "1e400",
@@ -110,7 +130,8 @@ def run(ck):
             ck.violation("pdtoa-crash", "pdtoa crashed: %s" % st, {"ops.txt": "\n".join(ops)}, err_)
 
         # ---- parser ------------------------------------------------------------------------------------
-        lits = gen_literals(rng, 3000 if quick else 100000)
+        mids = near_midpoints(rng, 40 if quick else 2000)
+        lits = gen_literals(rng, 3000 if quick else 100000) + mids
         ops = ["strtod " + hx(s) for s in lits]
         model = iglib.run_driver("float", ops, timeout=3000)
         locales = [None]
@@ -147,6 +168,7 @@ def run(ck):
         e2e = rng.sample([l for l in lits if re.match(r"^\d+\.\d+(e[+-]?\d+)?$", l) and len(l) < 30 and float(l) not in (float("inf"), 0.0)], 30 if quick else 300)
         e2e += ["0.3", "1.7", "1.5e105", "2.5e-203", "7e300", "100000000000000000000.0", "3.14159"]
         e2e += ["4.9e-324", "1e-310", "2.2250738585072009e-308", "2.2250738585072014e-308", "1.7976931348623157e308", "8.5e-320"]      # subnormals and the ends of the normal range
+        e2e += rng.sample(mids, 24 if quick else 400)
         # values that share their significand and differ only in the binary exponent (x, 2x, 4x, x/2): they must stay distinct
         for base in ["0.75", "0.1", "1.25", "3.3", "%d.%d" % (rng.randrange(1, 99), rng.randrange(1, 99))]:
             v = float(base)
